@@ -52,6 +52,7 @@ pub fn gen_mgr(rng: &mut Rng) -> MgrPlan {
             dup_chunks: 0,
             overlap_first: None,
             zero_byte_only: false,
+            offsets_style: 0,
         };
         let mut v = Vec::new();
         for i in 0..s.n_xorbs {
